@@ -163,3 +163,21 @@ Definition short_sections_present : bool :=
 Lemma tie_short_sections_nonblocking : short_sections_nonblocking = true. Proof. vm_compute. reflexivity. Qed.
 Lemma tie_short_sections_present : short_sections_present = true. Proof. vm_compute. reflexivity. Qed.
 Lemma tie_IncRef : body_fidRef_IncRef = ["atomic.AddInt64(&t.refs, 1)"]. Proof. reflexivity. Qed.
+
+(** ---- the reply path ----
+    After handle returns, handleRequest does ClearTag, sendMu.Lock, send, sendMu.Unlock, put, return - each exactly
+    once and under NO condition: nothing (in particular no flush state) decides whether the reply is sent
+    (Loop/Variants.v: v_suppress = false; with a condition there the flushed request's reply can be lost). *)
+Fixpoint events_after (p : string * list string * list string -> bool) (evs : list (string * list string * list string)) :=
+  match evs with
+  | [] => []
+  | e :: r => if p e then r else events_after p r
+  end.
+Definition no_conds (e : string * list string * list string) : bool := match ev_conds e with [] => true | _ => false end.
+Definition list_eqb (a b : list string) : bool :=
+  Nat.eqb (List.length a) (List.length b) && forallb (fun p => String.eqb (fst p) (snd p)) (combine a b).
+Definition reply_path_unconditional : bool :=
+  let tl := events_after (is_ev "handle") handleRequest_events in
+  list_eqb (map ev_name tl) ["ClearTag"; "sendMu.Lock"; "send"; "sendMu.Unlock"; "put"; "return"] && forallb no_conds tl &&
+  forallb (fun e => if is_ev "handle" e then no_conds e else true) handleRequest_events.
+Lemma tie_reply_path_unconditional : reply_path_unconditional = true. Proof. vm_compute. reflexivity. Qed.
